@@ -83,7 +83,9 @@ def main():
     ap.add_argument("--no-suite", action="store_true")
     ap.add_argument("--tier", default="quick")
     ap.add_argument("--tree")
+    ap.add_argument("--id", help="id to store under (default: n)")
     a = ap.parse_args()
+    sid = a.id or a.n
     tree = a.tree or "/tmp/seed-%s" % a.prop
     d = os.path.join(tree, "seed", a.n)
     patch = os.path.join(d, "patch.diff")
@@ -129,7 +131,7 @@ def main():
                  res.get("demo_fails_without_change") is False and
                  (a.no_suite or not res.get("suite_not_passing_with_change")))
     res["confirmed"] = bool(confirmed)
-    dst = os.path.join(VERIF, "seeded", "%s-%s" % (a.prop, a.n))
+    dst = os.path.join(VERIF, "seeded", "%s-%s" % (a.prop, sid))
     if confirmed:
         os.makedirs(dst, exist_ok=True)
         for f in os.listdir(d):
@@ -139,7 +141,7 @@ def main():
         readme = open(os.path.join(d, "README.md"), errors="replace").read() if os.path.exists(os.path.join(d, "README.md")) else ""
         old = {}
         try:
-            old = json.load(open(os.path.join(VERIF, "seeded", "%s-%s" % (a.prop, a.n), "meta.json")))
+            old = json.load(open(os.path.join(VERIF, "seeded", "%s-%s" % (a.prop, sid), "meta.json")))
         except Exception:
             pass
         if a.no_suite and "suite_not_passing_with_change" in old:
@@ -149,7 +151,7 @@ def main():
         res["checks"] = prev_checks
         desc = {}
         try:
-            desc = json.load(open(os.path.join(VERIF, "seeded", "descriptions.json"))).get("%s-%s" % (a.prop, a.n), {})
+            desc = json.load(open(os.path.join(VERIF, "seeded", "descriptions.json"))).get("%s-%s" % (a.prop, sid), {})
         except Exception:
             pass
         meta = {
